@@ -10,7 +10,8 @@
    extracted subgraph is checked end to end by the C19 oracle. *)
 From VF Require Import Base.Prelude Gen.Enums Model.Graph Gen.InstChecks Model.Insts
      Model.Perform Spec.WF Proofs.ListFacts Proofs.PerformStep Proofs.ModeProofs Proofs.LocalProofs
-     Proofs.AloneProofs Proofs.InstsAlone.
+     Proofs.AloneProofs Proofs.InstsAlone Gen.Configs Gen.Scopes Model.Recipe Model.Check Model.Plan
+     Proofs.PlanLocal Proofs.PipelineAlone.
 
 Definition ex_t0 (r : Z) : tensor :=
   {| t_root := r; t_sfx := []; t_shape := 0; t_ty := TY_FLOAT32; t_buf := 1; t_q := None |}.
@@ -117,6 +118,65 @@ Theorem C19_generated_and_transformed_as_if_alone :
                     transform_graph (alone m k g) tis2 = Ok m2 /\ same_subgraph_result k 0 m1 m2.
 Proof. exact generate_and_transform_alone. Qed.
 Print Assumptions C19_generated_and_transformed_as_if_alone.
+
+(* and one stage earlier still: the PARAMS GENERATOR.  It keeps one result
+   dict and one statistics dict for the whole model, keyed by tensor name; an
+   operator reads and writes them only at names of its own subgraph's tensors
+   (every materialise function, incl. the statistic overwrites of same-scale
+   and fixed-range ops).  So the plan entries named after subgraph k's tensors
+   (`filt (nb_of g) rs`) are the plan of k alone, for every recipe state, all
+   statistics and all models whose other subgraphs use other names: *)
+Theorem C19_plan_of_a_subgraph_is_its_stand_alone_plan :
+  forall matches rules nb scope_id bufs m m2 scopes stats k g sc rs s,
+    nth_opt (combine (m_subgraphs m) scopes) k = Some (g, sc) ->
+    m_subgraphs m2 = [g] -> m_opcodes m2 = m_opcodes m ->
+    inside nb (sg_tensors g) ->
+    (forall j g' sc', nth_opt (combine (m_subgraphs m) scopes) j = Some (g', sc') -> j <> k ->
+                      outside nb (sg_tensors g')) ->
+    plan matches rules bufs scope_id m scopes stats = Ok (rs, s) ->
+    exists s', plan matches rules bufs (fun _ => scope_id (Z.of_nat k)) m2 [sc] stats = Ok (filt nb rs, s') /\
+               agree (fun n => nb n = true) s s'.
+Proof. exact plan_of_subgraph_alone. Qed.
+Print Assumptions C19_plan_of_a_subgraph_is_its_stand_alone_plan.
+
+(* all three stages — plan generation, instruction generation, graph
+   transformation — on the whole model and on subgraph k alone (same recipe
+   state, statistics, buffers, opcode table; one parameter classification
+   [cls] on both sides, as parameter values are in the code): same plan
+   entries, same instructions, same resulting subgraph.  The buffer-sharing
+   check between the first two stages is cross-subgraph by nature (C15). *)
+Theorem C19_all_stages_as_if_the_subgraph_stood_alone :
+  forall matches rules scope_id cls m scopes stats k g sc rs s tis m1,
+    NoDup (all_keys m) ->
+    nth_opt (combine (m_subgraphs m) scopes) k = Some (g, sc) -> codes_in_range (m_opcodes m) g ->
+    plan matches rules (m_buffers m) scope_id m scopes stats = Ok (rs, s) ->
+    insts_of_params m (map (to_ttp cls) rs) = Ok tis ->
+    transform_graph m tis = Ok m1 ->
+    exists s' tis2 m2,
+      plan matches rules (m_buffers (alone m k g)) (fun _ => scope_id (Z.of_nat k)) (alone m k g) [sc] stats
+        = Ok (filt (nb_of g) rs, s') /\
+      insts_of_params (alone m k g) (map (to_ttp cls) (filt (nb_of g) rs)) = Ok tis2 /\
+      transform_graph (alone m k g) tis2 = Ok m2 /\
+      same_subgraph_result k 0 m1 m2.
+Proof. exact stages_alone. Qed.
+Print Assumptions C19_all_stages_as_if_the_subgraph_stood_alone.
+
+(* non-vacuity: two subgraphs with different tensor names; the plan of the
+   whole model succeeds, and its entries for subgraph 1 are the plan of
+   subgraph 1 alone *)
+Example C19_plan_alone_nonvacuous :
+  let g1 := ex_sg_named 2 in
+  let m := {| m_subgraphs := [ex_sg_named 0; g1]; m_buffers := [BEmpty; BEmpty]; m_opcodes := [0]; m_sigs := [] |} in
+  NoDup (all_keys m) /\
+  match plan (fun _ _ => true) init (m_buffers m) (fun _ _ => 0) m [[false]; [false]] None with
+  | Ok (rs, _) =>
+      length rs = 4%nat /\ length (filt (nb_of g1) rs) = 2%nat /\
+      option_map fst (match plan (fun _ _ => true) init (m_buffers m) (fun _ _ => 0) (alone m 1 g1) [[false]] None with
+                      | Ok r => Some r | Err _ => None end) = Some (filt (nb_of g1) rs)
+  | Err _ => False end.
+Proof.
+  split; [vm_compute; repeat constructor; cbn; intuition discriminate|vm_compute; repeat split].
+Qed.
 
 (* the step-level facts behind it, for ANY two states that agree on the subgraph *)
 Theorem C19_same_instruction_same_effect :
